@@ -1,4 +1,5 @@
 mod air;
+mod asmseq;
 mod dump;
 mod sym;
 mod exec;
@@ -30,6 +31,7 @@ fn run_family(family: &str, path: &str) {
             "tracehash" => trace::run_tracehash(&line),
             "asmdump" => masm::run_asmdump(&line),
             "serde" => serde::run_serde(&line),
+            "asmseq" => asmseq::run_asmseq(&line),
             _ => panic!("unknown family {family}"),
         };
         // result lines carry a marker: the default host prints debug decorators to stdout
